@@ -21,8 +21,9 @@ def fill(claim, na):
           "AST/CFG rules over all dfs units: thrown-type census, interprocedural may-throw sets vs. try handlers in main, "
           "exit-status value sets, must-dataflow size checks on every FileAccess::read result, input-governed loop exits, "
           "field-based taint from 32-bit file fields to allocation sizes, dominance of optional dereferences, non-zero "
-          "divisors, recursive diagnose-on-failure classification of every command path",
-          "Decides nine structural necessary conditions of clean failure for all inputs (eight were violated by a hostile "
+          "divisors, non-empty containers at every back()/front()/pop (must-facts, must-append dataflow, constructor "
+          "class invariant), recursive diagnose-on-failure classification of every command path",
+          "Decides ten structural necessary conditions of clean failure for all inputs (nine were violated by a hostile "
           "file or command line before the fix: commits). Does not decide general memory safety/termination of the "
           "parsers or assertion reachability.",
           "Trusts clang AST/CFG, the call-graph closure (virtual calls to all overriders, lambdas attributed to their "
@@ -68,7 +69,7 @@ def fill(claim, na):
           "decoder typestate on the CFG: must-facts with Boolean unit propagation (ID CRC and ID decode before the "
           "record state, data CRC before a push), path-sensitive tracking of the state variable across loop "
           "iterations (held ID consumed once), dominance of appends by track validation, sibling rule on the flux "
-          "adapters (address-based lookup), bounded ID-to-data-mark distance in the FM decoder",
+          "adapters (address-based lookup), bounded ID-to-data-mark distance in the FM and MFM decoders",
           "Decides the gating clauses for every bit-stream: no sector is yielded without both CRC checks having "
           "succeeded on that path, and the image adapters look sectors up by recorded address. Does not decide what "
           "scan_for finds in the bits (sync constants, bit order).",
